@@ -23,6 +23,7 @@ from common import ROOT, REPO, TARGET, NCPU
 ASAN_DIR = os.path.join(TARGET, 'vmon-asan')
 VMON_ASAN = os.path.join(ASAN_DIR, 'x86_64-unknown-linux-gnu', 'release', 'vmon')
 _built = {}
+NOT_PER_LANGUAGE = {'c12'}
 
 
 def build_asan():
@@ -144,7 +145,11 @@ def run(monitor, ctx, nshards=4):
     langs = sorted(os.listdir(os.path.join(ROOT, 'corpus')))
     timeout = 1800
     with cf.ThreadPoolExecutor(max_workers=NCPU) as ex:
-        jobs = [ex.submit(_one, monitor, ctx, l, ctx.seed % nshards, nshards, timeout) for l in langs]
+        if monitor in NOT_PER_LANGUAGE:
+            # the workload does not iterate the corpus: distinct shards instead of one process per language
+            jobs = [ex.submit(_one, monitor, ctx, '', i, NCPU, timeout) for i in range(NCPU)]
+        else:
+            jobs = [ex.submit(_one, monitor, ctx, l, ctx.seed % nshards, nshards, timeout) for l in langs]
         results = [j.result() for j in jobs]
     reports = [rep]
     for r in results:
